@@ -42,6 +42,8 @@ type evalEnv struct {
 	entryNext string // allocation stamp at entry (for fresh())
 	inOld   bool
 	oldNames func(name string, e *evalEnv) (tv, bool)
+	macroPkg string
+	nquant   int
 	limited  *specFn // inside the body of this spec function: recursive calls use the limited copy
 }
 
@@ -216,7 +218,25 @@ func (e *evalEnv) fromAddr(t types.Type, ref, off string) tv {
 	case *types.Struct, *types.Array:
 		return tv{typ: t, isAddr: true, ref: ref, off: off}
 	}
-	return tv{term: sel(e.st.H[kindOf(t)], ref, off), typ: t}
+	term := sel(e.st.H[kindOf(t)], ref, off)
+	// heap well-formedness of the loaded value (Go memory safety; DESIGN 4.2) -- only for closed terms
+	if e.nquant == 0 && e.st.Next != "" {
+		if wf := e.g.heapValWF(t, term, e.st); wf != "" {
+			key := "wf:" + term + "@" + e.st.Next
+			if e.a != nil {
+				key += "@" + e.a.curReach
+			}
+			if !e.g.specUsed[key] {
+				e.g.specUsed[key] = true
+				reach := "true"
+				if e.a != nil && e.a.curReach != "" {
+					reach = e.a.curReach
+				}
+				e.g.assumeIf(reach, wf)
+			}
+		}
+	}
+	return tv{term: term, typ: t}
 }
 
 func (e *evalEnv) ident(x *ast.Ident) tv {
@@ -545,7 +565,13 @@ func (e *evalEnv) index(x *ast.IndexExpr) tv {
 }
 
 func (e *evalEnv) sliceExpr(x *ast.SliceExpr) tv {
-	b := e.value(e.eval(x.X))
+	b0 := e.eval(x.X)
+	if b0.isAddr {
+		if _, ok := b0.typ.Underlying().(*types.Array); ok {
+			return e.sliceOfArrayAddr(b0, x)
+		}
+	}
+	b := e.value(b0)
 	lo := "0"
 	if x.Low != nil {
 		lo = e.value(e.eval(x.Low)).term
@@ -571,6 +597,20 @@ func (e *evalEnv) sliceExpr(x *ast.SliceExpr) tv {
 	}
 	e.fail(x, "cannot slice %s", b.typ)
 	return tv{}
+}
+
+// sliceOfArrayAddr: x[lo:hi] where x is an array living in memory
+func (e *evalEnv) sliceOfArrayAddr(base tv, x *ast.SliceExpr) tv {
+	at := base.typ.Underlying().(*types.Array)
+	lo := "0"
+	if x.Low != nil {
+		lo = e.value(e.eval(x.Low)).term
+	}
+	hi := fmt.Sprint(at.Len())
+	if x.High != nil {
+		hi = e.value(e.eval(x.High)).term
+	}
+	return tv{term: fmt.Sprintf("(mkSlice %s (+ %s %s) (- %s %s) (- %d %s))", base.ref, base.off, mulConst(slots(at.Elem()), lo), hi, lo, at.Len(), lo), typ: types.NewSlice(at.Elem())}
 }
 
 func refOf(v tv) (string, bool) {
@@ -642,6 +682,18 @@ func (e *evalEnv) call(x *ast.CallExpr) tv {
 				e.fail(x, "has() on non-map")
 			}
 			return tv{term: fmt.Sprintf("(and (not (= %s 0)) %s)", m.term, sel(e.st.H["MD"], m.term, e.a.mapKey(mt.Key(), k.term))), typ: tBool}
+		case "mapdom", "mapval":
+			m := e.value(e.eval(x.Args[0]))
+			k := e.value(e.eval(x.Args[1]))
+			mt, ok := m.typ.Underlying().(*types.Map)
+			if !ok {
+				e.fail(x, "%s() on non-map", id.Name)
+			}
+			key := e.a.mapKey(mt.Key(), k.term)
+			if id.Name == "mapdom" {
+				return tv{term: sel(e.st.H["MD"], m.term, key), typ: tBool}
+			}
+			return tv{term: sel(e.st.H["M"+kindOf(mt.Elem())], m.term, key), typ: mt.Elem()}
 		case "fresh":
 			v := e.value(e.eval(x.Args[0]))
 			r, ok := refOf(v)
@@ -724,6 +776,27 @@ func (e *evalEnv) call(x *ast.CallExpr) tv {
 				return tv{term: fmt.Sprintf("(sunit %s)", v.term), typ: tString}
 			}
 			e.fail(x, "string() of %s", v.typ)
+		}
+	}
+	// macro
+	if id, ok := x.Fun.(*ast.Ident); ok && e.pkg != nil {
+		mc := macros[e.pkg.Path()+"."+id.Name]
+		if mc == nil {
+			for _, m2 := range macros {
+				if m2.Name == id.Name {
+					mc = m2
+				}
+			}
+		}
+		if mc != nil {
+			if len(mc.Params) != len(x.Args) {
+				e.fail(x, "macro %s: wrong number of arguments", mc.Name)
+			}
+			c := e.child()
+			for i, p := range mc.Params {
+				c.bound[p] = e.eval(x.Args[i])
+			}
+			return c.eval(mc.Body.Expr)
 		}
 	}
 	// type conversion T(x)
@@ -819,6 +892,7 @@ func (e *evalEnv) quant(q string, x *ast.CallExpr) tv {
 		e.fail(x, "bad quantifier")
 	}
 	c := e.child()
+	c.nquant = e.nquant + 1
 	var decls []string
 	var ranges []string
 	for _, f := range fl.Type.Params.List {
@@ -836,10 +910,18 @@ func (e *evalEnv) quant(q string, x *ast.CallExpr) tv {
 	}
 	ret := fl.Body.List[0].(*ast.ReturnStmt)
 	body := c.evalBool(ret.Results[0])
-	var pats []string
+	var groups []string
 	for _, t := range x.Args[1:] {
-		v := c.value(c.eval(t))
-		pats = append(pats, v.term)
+		pc, ok := t.(*ast.CallExpr)
+		if !ok {
+			e.fail(x, "bad trigger")
+		}
+		var pats []string
+		for _, pa := range pc.Args {
+			v := c.value(c.eval(pa))
+			pats = append(pats, v.term)
+		}
+		groups = append(groups, " :pattern ("+strings.Join(pats, " ")+")")
 	}
 	if len(ranges) > 0 {
 		rc := "(and " + strings.Join(ranges, " ") + ")"
@@ -849,11 +931,9 @@ func (e *evalEnv) quant(q string, x *ast.CallExpr) tv {
 			body = fmt.Sprintf("(and %s %s)", rc, body)
 		}
 	}
-	pat := ""
-	if len(pats) > 0 {
-		// each trigger given is an alternative multi-pattern element; a list separated by commas forms one multi-pattern
-		pat = " :pattern (" + strings.Join(pats, " ") + ")"
-		body = fmt.Sprintf("(! %s%s)", body, pat)
+	if len(groups) > 0 {
+		// several {..} groups are alternative patterns; the terms inside one group form a multi-pattern
+		body = fmt.Sprintf("(! %s%s)", body, strings.Join(groups, ""))
 	}
 	return tv{term: fmt.Sprintf("(%s (%s) %s)", q, strings.Join(decls, " "), body), typ: tBool}
 }
@@ -1120,6 +1200,23 @@ func (cs *callSite) evalTerm(cl *Clause, st *State) string {
 	cs.ensureLets()
 	e := cs.env(st, nil)
 	return e.value(e.eval(cl.Expr)).term
+}
+
+func (cs *callSite) modRefKinds(st *State) []modTarget {
+	var out []modTarget
+	for _, m := range cs.ct.Modifies {
+		cs.ensureLets()
+		e := cs.env(st, nil)
+		v := e.value(e.eval(m.Expr))
+		mt := modTarget{kinds: targetKinds(v.typ)}
+		if sl, ok := v.typ.Underlying().(*types.Slice); ok {
+			n := slots(sl.Elem())
+			mt.off = fmt.Sprintf("(soff %s)", v.term)
+			mt.len = mulConst(n, fmt.Sprintf("(sllen %s)", v.term))
+		}
+		out = append(out, mt)
+	}
+	return out
 }
 
 func (cs *callSite) modRefs(st *State) []string {
